@@ -129,7 +129,9 @@ type fn struct {
 	calls     map[string]bool     // listed functions called (Lean names)
 	skipped   []string            // calls made for an effect the model does not carry
 	prefixLen int                 // Prefix mode: how many top-level statements were translated
-	tmp       int
+	// fieldSet: a field of an opaque variable the function has assigned (`position.PositionHealth = h`): later reads read the assigned value
+	fieldSet map[string]string
+	tmp      int
 }
 
 type tr struct {
@@ -391,6 +393,9 @@ func (t *tr) expr(b *block, e ast.Expr) string {
 		}
 		t.bad(e, "binary operator")
 	case *ast.SelectorExpr:
+		if v, ok := t.f.fieldSet[t.text(x)]; ok {
+			return v
+		}
 		if id := t.rootIdent(x); id != nil {
 			if o := t.f.pkg.TypesInfo.Uses[id]; o != nil {
 				if _, isVar := o.(*types.Var); isVar && kindOf(o.Type()) == kOpaque {
@@ -995,6 +1000,19 @@ func (t *tr) stmts(list []ast.Stmt, tail []string) []string {
 				t.bad(x, "assignment arity")
 			}
 			for j := range x.Lhs {
+				if sel, isSel := x.Lhs[j].(*ast.SelectorExpr); isSel && x.Tok == token.ASSIGN {
+					if rid := t.rootIdent(sel); rid != nil {
+						if v, isVar := t.f.pkg.TypesInfo.Uses[rid].(*types.Var); isVar && kindOf(v.Type()) == kOpaque {
+							if lk := kindOf(t.typeOf(sel)); lk == kDec || lk == kInt || lk == kMach || lk == kBool {
+								val := t.expr(b, x.Rhs[j])
+								tmp := t.fresh()
+								b.add(fmt.Sprintf("let %s := %s", tmp, val))
+								t.f.fieldSet[t.text(sel)] = tmp
+								continue
+							}
+						}
+					}
+				}
 				id, ok := x.Lhs[j].(*ast.Ident)
 				if !ok {
 					t.bad(x, "assignment to a non-variable")
@@ -1208,7 +1226,9 @@ func (t *tr) function() string {
 	if r := f.decl.Type.Results; r != nil {
 		for _, fld := range r.List {
 			for _, n := range fld.Names {
-				if kindOf(t.typeOf(fld.Type)) != kErr {
+				if k := kindOf(t.typeOf(fld.Type)); k == kBool {
+					pre = append(pre, fmt.Sprintf("let %s : Bool := false", ident(n.Name)))
+				} else if k != kErr {
 					pre = append(pre, fmt.Sprintf("let %s : Int := 0", ident(n.Name)))
 				}
 			}
@@ -1222,7 +1242,16 @@ func (t *tr) function() string {
 		// the guards in front of a function's effects: the longest prefix of its statements the translator understands; reaching its end
 		// is `pure ()` ("not refused")
 		done := false
-		for n := len(f.decl.Body.List); n >= 1 && !done; n-- {
+		start := len(f.decl.Body.List)
+		if f.spec.Until != "" {
+			for i, st := range f.decl.Body.List {
+				if strings.Contains(t.text(st), f.spec.Until) {
+					start = i
+					break
+				}
+			}
+		}
+		for n := start; n >= 1 && !done; n-- {
 			func() {
 				defer func() {
 					if r := recover(); r != nil {
@@ -1232,7 +1261,7 @@ func (t *tr) function() string {
 					}
 				}()
 				f.free, f.freeT, f.freeK, f.freeN = nil, map[string]string{}, map[string]kind{}, map[string]string{}
-				f.alias, f.skipped, f.tmp = map[string]ast.Expr{}, nil, 0
+				f.alias, f.skipped, f.tmp, f.fieldSet = map[string]ast.Expr{}, nil, 0, map[string]string{}
 				lines := t.stmts(f.decl.Body.List[:n], []string{"pure true"})
 				body = append(pre, lines...)
 				f.prefixLen = n
@@ -1362,7 +1391,7 @@ func main() {
 			fail("function not found: " + s.Pkg + " " + s.Func)
 		}
 		f := &fn{spec: s, pkg: p, decl: decl, freeT: map[string]string{}, freeK: map[string]kind{}, freeN: map[string]string{},
-			alias: map[string]ast.Expr{}, parIx: map[string]int{}, calls: map[string]bool{}}
+			alias: map[string]ast.Expr{}, parIx: map[string]int{}, calls: map[string]bool{}, fieldSet: map[string]string{}}
 		ix := 0
 		for _, fl := range []*ast.FieldList{decl.Recv, decl.Type.Params} {
 			if fl == nil {
